@@ -217,8 +217,22 @@ func (d *Document) GetPageSettings() *PageSettings {
 		width := twipsToMM(parseFloat(sectPr.PageSize.W))
 		height := twipsToMM(parseFloat(sectPr.PageSize.H))
 
+		// getPageDimensions stores the dimensions swapped for landscape: undo the swap so that
+		// width/height are the ones SetPageSettings was given (the read path must invert the write path)
+		if sectPr.PageSize.Orient == string(OrientationLandscape) {
+			width, height = height, width
+		}
+
 		// 判断是否为预定义尺寸
 		settings.Size = identifyPageSize(width, height)
+		if settings.Size != PageSizeCustom {
+			// identifyPageSize also matches a size given the other way round; in this orientation such a
+			// page is not the predefined size (writing it back would turn the page) - keep it custom
+			dims := predefinedSizes[settings.Size]
+			if abs(width-dims.width) >= 1.0 || abs(height-dims.height) >= 1.0 {
+				settings.Size = PageSizeCustom
+			}
+		}
 		if settings.Size == PageSizeCustom {
 			settings.CustomWidth = width
 			settings.CustomHeight = height
